@@ -1158,99 +1158,76 @@ impl Blockchain {
 
         #[cfg(saito_verif)]
         crate::core::verif_hooks::validate_begin();
-        if old_chain.is_empty() {
-            let mut result: WindingResult =
-                WindingResult::Wind(new_chain.len() - 1, false, WALLET_NOT_UPDATED);
-            loop {
-                #[cfg(saito_verif)]
-                crate::core::verif_hooks::validate_step();
-                match result {
-                    WindingResult::Wind(current_wind_index, wind_failure, wallet_status) => {
-                        wallet_update_status |= wallet_status;
-
-                        result = self
-                            .wind_chain(
-                                new_chain,
-                                old_chain,
-                                current_wind_index,
-                                wind_failure,
-                                storage,
-                                configs,
-                            )
-                            .await;
-                    }
-                    WindingResult::Unwind(
-                        current_unwind_index,
-                        wind_failure,
-                        old_chain,
-                        wallet_status,
-                    ) => {
-                        wallet_update_status |= wallet_status;
-                        result = self
-                            .unwind_chain(
-                                new_chain,
-                                old_chain.as_slice(),
-                                current_unwind_index,
-                                wind_failure,
-                                storage,
-                                configs,
-                            )
-                            .await;
-                    }
-                    WindingResult::FinishWithSuccess(wallet_updated) => {
-                        return (true, wallet_update_status | wallet_updated)
-                    }
-                    WindingResult::FinishWithFailure => return (false, wallet_update_status),
-                }
-            }
-        } else if !new_chain.is_empty() {
-            let mut result = WindingResult::Unwind(0, true, old_chain.to_vec(), WALLET_NOT_UPDATED);
-            loop {
-                #[cfg(saito_verif)]
-                crate::core::verif_hooks::validate_step();
-                match result {
-                    WindingResult::Wind(current_wind_index, wind_failure, wallet_status) => {
-                        wallet_update_status |= wallet_status;
-                        result = self
-                            .wind_chain(
-                                new_chain,
-                                old_chain,
-                                current_wind_index,
-                                wind_failure,
-                                storage,
-                                configs,
-                            )
-                            .await;
-                    }
-                    WindingResult::Unwind(
-                        current_wind_index,
-                        wind_failure,
-                        old_chain,
-                        wallet_status,
-                    ) => {
-                        wallet_update_status |= wallet_status;
-                        result = self
-                            .unwind_chain(
-                                new_chain,
-                                old_chain.as_slice(),
-                                current_wind_index,
-                                wind_failure,
-                                storage,
-                                configs,
-                            )
-                            .await;
-                    }
-                    WindingResult::FinishWithSuccess(wallet_updated) => {
-                        return (true, wallet_update_status | wallet_updated);
-                    }
-                    WindingResult::FinishWithFailure => {
-                        return (false, wallet_update_status);
-                    }
-                }
-            }
-        } else {
+        if new_chain.is_empty() {
             warn!("lengths are inappropriate");
-            (false, wallet_update_status)
+            return (false, wallet_update_status);
+        }
+
+        let mut result: WindingResult = if old_chain.is_empty() {
+            WindingResult::Wind(new_chain.len() - 1, false, WALLET_NOT_UPDATED)
+        } else {
+            WindingResult::Unwind(0, true, old_chain.to_vec(), WALLET_NOT_UPDATED)
+        };
+        // the chain being wound and the chain to fall back to. when a block of the new chain
+        // does not validate the roles swap : whatever was wound of the new chain is unwound
+        // and the old chain is wound back, after which we finish with failure.
+        let mut chain_to_wind: &[SaitoHash] = new_chain;
+        let mut chain_to_restore: &[SaitoHash] = old_chain;
+        let mut recovering = false;
+        loop {
+            #[cfg(saito_verif)]
+            crate::core::verif_hooks::validate_step();
+            match result {
+                WindingResult::Wind(current_wind_index, wind_failure, wallet_status) => {
+                    wallet_update_status |= wallet_status;
+                    result = self
+                        .wind_chain(
+                            chain_to_wind,
+                            chain_to_restore,
+                            current_wind_index,
+                            wind_failure,
+                            storage,
+                            configs,
+                        )
+                        .await;
+                    if matches!(
+                        result,
+                        WindingResult::Wind(_, true, _) | WindingResult::Unwind(_, true, _, _)
+                    ) {
+                        if recovering {
+                            // the previously valid chain cannot be restored
+                            error!("failed restoring the old chain after a failed reorg");
+                            return (false, wallet_update_status);
+                        }
+                        recovering = true;
+                        chain_to_wind = old_chain;
+                        chain_to_restore = &[];
+                    }
+                }
+                WindingResult::Unwind(
+                    current_unwind_index,
+                    wind_failure,
+                    chain_to_unwind,
+                    wallet_status,
+                ) => {
+                    wallet_update_status |= wallet_status;
+                    result = self
+                        .unwind_chain(
+                            chain_to_wind,
+                            chain_to_unwind.as_slice(),
+                            current_unwind_index,
+                            wind_failure,
+                            storage,
+                            configs,
+                        )
+                        .await;
+                }
+                WindingResult::FinishWithSuccess(wallet_updated) => {
+                    // finishing the rewind of the old chain is still a failed reorg
+                    return (!recovering, wallet_update_status | wallet_updated);
+                }
+                WindingResult::FinishWithFailure => return (false, wallet_update_status),
+            }
         }
     }
 
@@ -1613,7 +1590,7 @@ impl Blockchain {
             //
             // winding requires starting at the END of the vector and rolling
             // backwards until we have added block #5, etc.
-            WindingResult::Wind(new_chain.len() - 1, wind_failure, wallet_updated)
+            WindingResult::Wind(new_chain.len().saturating_sub(1), wind_failure, wallet_updated)
         } else {
             // continue unwinding,, which means
             //
